@@ -24,9 +24,19 @@ macro_rules! properties {
 properties! {
     "C01" => c01,
     "C02" => c02,
+    "C04" => c04,
+    "C05" => c05,
+    "C07" => c07,
     "C11" => c11,
     "C12" => c12,
+    "C14" => c14,
+    "C16" => c16,
+    "C18" => c18,
+    "C19" => c19,
+    "C20" => c20,
 }
+
+pub mod c18_model;
 
 /// Cheap self-tests of the numerical oracles; failure makes the run inconclusive, not a violation.
 pub fn self_test() -> bool {
@@ -34,4 +44,6 @@ pub fn self_test() -> bool {
         && crate::oracle::linalg::self_test()
         && crate::oracle::quad::self_test()
         && c02::self_test()
+        && c19::self_test()
+        && c20::self_test()
 }
